@@ -339,6 +339,15 @@ func (c *Ctx) TLC(o TLCOpts) (*TLCResult, error) {
 		cfg = "Empty_" + tag + ".cfg"
 		os.WriteFile(filepath.Join(c.Work, cfg), []byte("\n"), 0o644)
 	}
+	// Optional cache (QV_TLC_CACHE=<dir>, used only by bin/seed-matrix): a TLC run whose inputs are the
+	// specification alone (no recorded trace) gives the same output for every code tree, so the many
+	// trees of the seeded matrix share it. Registered checks never set the variable.
+	ckey := c.tlcCacheKey(o, cfg)
+	if ckey != "" {
+		if res, ok := c.tlcCacheLoad(ckey, o); ok {
+			return res, nil
+		}
+	}
 	meta := filepath.Join(c.Work, "md-"+tag)
 	args := []string{"-XX:+UseParallelGC", fmt.Sprintf("-Xmx%dm", o.HeapMB), "-Xss256m", "-cp", TLAJars, "tlc2.TLC",
 		"-metadir", meta, "-workers", strconv.Itoa(o.Workers), "-config", cfg}
@@ -402,7 +411,101 @@ func (c *Ctx) TLC(o TLCOpts) (*TLCResult, error) {
 		}
 	}
 	res.InvViolated = strings.Contains(res.Out, "is violated") || strings.Contains(res.Out, "Invariant") && strings.Contains(res.Out, "violated")
+	if ckey != "" && res.ExitCode == 0 {
+		c.tlcCacheStore(ckey, o, res)
+	}
 	return res, nil
+}
+
+func envVal(env []string, key string) string {
+	for _, e := range env {
+		if strings.HasPrefix(e, key+"=") {
+			return e[len(key)+1:]
+		}
+	}
+	return ""
+}
+
+func (c *Ctx) tlcCacheKey(o TLCOpts, cfg string) string {
+	dir := os.Getenv("QV_TLC_CACHE")
+	if dir == "" || envVal(o.Env, "QV_TRACE") != "" {
+		return ""
+	}
+	h := sha1.New()
+	names, _ := filepath.Glob(filepath.Join(c.Work, "*.tla"))
+	sort.Strings(names)
+	for _, n := range names {
+		b, _ := os.ReadFile(n)
+		fmt.Fprintf(h, "%s %d\n", filepath.Base(n), len(b))
+		h.Write(b)
+	}
+	b, _ := os.ReadFile(filepath.Join(c.Work, cfg))
+	h.Write(b)
+	fmt.Fprintf(h, "|%s|%v|", o.Module, o.Args)
+	for _, e := range o.Env {
+		if !strings.HasPrefix(e, "QV_OUT=") {
+			fmt.Fprintf(h, "%s|", e)
+		}
+	}
+	return filepath.Join(dir, fmt.Sprintf("%x", h.Sum(nil))[:32])
+}
+
+func copyFile(dst, src string) error {
+	in, err := os.Open(src)
+	if err != nil {
+		return err
+	}
+	defer in.Close()
+	out, err := os.Create(dst)
+	if err != nil {
+		return err
+	}
+	if _, err := io.Copy(out, in); err != nil {
+		out.Close()
+		return err
+	}
+	return out.Close()
+}
+
+func (c *Ctx) tlcCacheLoad(key string, o TLCOpts) (*TLCResult, bool) {
+	b, err := os.ReadFile(key + ".json")
+	if err != nil {
+		return nil, false
+	}
+	res := new(TLCResult)
+	if json.Unmarshal(b, res) != nil {
+		return nil, false
+	}
+	if out := envVal(o.Env, "QV_OUT"); out != "" {
+		if copyFile(out, key+".out") != nil {
+			return nil, false
+		}
+	}
+	if o.StdoutFile != "" {
+		if copyFile(o.StdoutFile, key+".stdout") != nil {
+			return nil, false
+		}
+	}
+	return res, true
+}
+
+func (c *Ctx) tlcCacheStore(key string, o TLCOpts, res *TLCResult) {
+	os.MkdirAll(filepath.Dir(key), 0o755)
+	if out := envVal(o.Env, "QV_OUT"); out != "" {
+		if copyFile(key+".out", out) != nil {
+			return
+		}
+	}
+	if o.StdoutFile != "" {
+		if copyFile(key+".stdout", o.StdoutFile) != nil {
+			return
+		}
+	}
+	b, _ := json.Marshal(res)
+	tmp := key + ".tmp"
+	if os.WriteFile(tmp, b, 0o644) == nil {
+		os.Rename(tmp, key+".json")
+	}
 }
 
 // MustTLC fails (Broken) on any TLC error: parse errors, evaluation errors,
